@@ -25,9 +25,9 @@ func init() {
 		Assumptions: []string{"Go memory model; sync.Mutex/RWMutex semantics", "static callees only for entry lock-set propagation (interface and closure calls start with no lock held — conservative)"},
 		Rules: []*core.Rule{
 			{ID: "C09-R1", Title: "runtime-written package state is accessed under one lock", Floor: 4, Run: c09r1},
-			{ID: "C09-R2", Title: "map fields of mutex-carrying shared objects are accessed under that mutex", Floor: 2, Run: c09r2},
+			{ID: "C09-R2", Title: "map fields of mutex-carrying shared objects are accessed under that mutex", Floor: 1, Run: c09r2},
 			{ID: "C09-R3", Title: "compiled code is read-only for its users", Floor: 10, Run: c09r3},
-			{ID: "C09-R4", Title: "objects from shared registries/caches are not mutated after publication", Floor: 3, Run: c09r4},
+			{ID: "C09-R4", Title: "objects from shared registries/caches are not mutated after publication", Floor: 1, Run: c09r4},
 			{ID: "C09-R5", Title: "mutex-guarded VM maps are copied, not aliased, into another VM", Floor: 2, Run: c09r5},
 			{ID: "C09-R6", Title: "callbacks from other goroutines run on a clone made for that call", Floor: 2, Run: freshClonePerCall},
 			{ID: "C09-R7", Title: "registry-cached descriptors and converters are written only while they are built", Floor: 5, Run: cachedObjectsImmutable},
@@ -36,7 +36,7 @@ func init() {
 			{ID: "C09-R10", Title: "no package-level standard-library object that is unsafe for concurrent use", Floor: 1, Run: noSharedUnsafeStdlibObjects},
 			{ID: "C09-R11", Title: "references shared with clones are not written through (shared with C07)", Floor: 1, Run: cloneAliasesNotWrittenThrough},
 			{ID: "C09-R12", Title: "a deferred Unlock finds its mutex locked on every path (shared with C03)", Floor: 5, Run: deferredUnlockFindsLockHeld},
-			{ID: "C09-R13", Title: "thread result published before done (shared with C10-R3)", Floor: 2, Run: c10r3},
+			{ID: "C09-R13", Title: "thread result published before done (shared with C10-R3)", Floor: 1, Run: c10r3},
 			{ID: "C09-R14", Title: "the state of an iteration is per consumer (shared with C10)", Floor: 5, Run: iterationStateIsPerConsumer},
 			{ID: "C09-R15", Title: "channel objects have no plainly written fields", Floor: 1, Run: sharedObjectFieldsAreNotPlainWritten},
 			{ID: "C09-R16", Title: "an evaluation closes only the files it opened", Floor: 1, Run: evaluationsCloseOnlyWhatTheyOpened},
@@ -49,7 +49,7 @@ func init() {
 			{ID: "C09-R23", Title: "process-wide objects of the standard library are not configured", Floor: 1, Run: processWideObjectsAreNotConfigured},
 			{ID: "C09-R24", Title: "read-only operations do not write the container (shared with C16-R30)", Floor: 20, Run: readOnlyOperationsDoNotWriteTheContainer},
 			{ID: "C09-R25", Title: "an importer's failure is not taken for absence, also by those who waited for it (shared with C14-R24)", Floor: 2, Run: importerFailuresAreNotTakenForAbsence},
-			{ID: "C09-R26", Title: "importers remember only successes (shared with C18-R21)", Floor: 2, Run: importersRememberOnlySuccesses},
+			{ID: "C09-R26", Title: "importers remember only successes (shared with C18-R21)", Floor: 1, Run: importersRememberOnlySuccesses},
 		},
 	})
 }
